@@ -102,7 +102,7 @@ def mk_s2s(name, RS, E1, RD, E2, tag):
     return Kernel(name, [("a", RS)], RD, body.replace("{n}", name), decls=decl.replace("{n}", name), mode="bv",
                   W=max(bits(RS), bits(RD)) + abs(k) + 10, pre=pre, claims=claims,
                   desc="%s:%d -> %s:%d [%s]" % (RS, E1, RD, E2, tag),
-                  tags={"family": "s2s", "S": RS, "D": RD, "tag": tag, "k": k, "PS": promote(RS), "Ss": signed(RS), "E1": E1})
+                  tags={"family": "s2s", "S": RS, "D": RD, "tag": tag, "k": k, "PS": promote(RS), "Ss": signed(RS), "E1": E1, "up": k < 0})
 
 
 def kernels(opts):
